@@ -1,17 +1,25 @@
 use crate::fw::{PropertyDef, Tier};
 
 pub mod common;
+pub mod gsom;
 pub mod model;
+pub mod numerics;
 pub mod algos;
 pub mod order;
+pub mod population;
 pub mod routing;
+pub mod scientific;
 
 pub fn property(id: &str, tier: Tier) -> Option<PropertyDef> {
     match id {
+        "C13" => Some(scientific::property(tier)),
         "C14" => Some(model::property(tier)),
+        "C08" => Some(population::property(tier)),
         "C09" => Some(order::property(tier)),
         "C16" => Some(routing::property(tier)),
         "C17" => Some(algos::property(tier)),
+        "C18" => Some(numerics::property(tier)),
+        "C19" => Some(gsom::property(tier)),
         _ => None,
     }
 }
